@@ -83,6 +83,19 @@ def run(cx, rep):
         for n in walk(m["function"]):
             if n["type"] == "UnaryExpression" and n["operator"] == "delete" and prog_field and s(n["argument"]).startswith("this.%s[" % prog_field):
                 clearers.add(mname)
+    # a method that clears through a private method of the context clears as well
+    grew = True
+    while grew:
+        grew = False
+        for mname, m in spc.methods.items():
+            if mname in clearers or m["function"].get("body") is None:
+                continue
+            for n in walk(m["function"]):
+                mc = method_call(n) if n["type"] == "CallExpression" else None
+                if mc and s(mc[0]) == "this" and mc[1] in clearers:
+                    clearers.add(mname)
+                    grew = True
+                    break
     rep.rule("C16.1", "in-progress marks are resolved on every exit, exceptional ones included")
     rep.ob("C16.1", "roles", bool(markers) and bool(storers) and bool(clearers) and storers <= clearers,
            "could not identify mark/store/clear methods of SchemaPrintingContext (mark %s, store %s, clear %s)" % (markers, storers, clearers), mod.loc(spc.node),
@@ -331,6 +344,14 @@ def override_consistency_rule(mod, spc, storers, rep, rid):
                     hp = ts_common.fn_params(hfn)[helpers[mc_[1]]]
                     consults = any(x["type"] == "CallExpression" and method_call(x) and method_call(x)[1] in getters and method_call(x)[2]
                                    and s(method_call(x)[2][0]) == hp for x in walk(hfn))
+                if not consults:
+                    # the name and the body target come out of a private helper (`const d = this.resolve(..)` returning
+                    # {name, target}): the override is consulted there, for the name of the reference target
+                    for x in tsast.walk_inl(mod, cname, fn, depth=2):
+                        if x["type"] == "CallExpression" and method_call(x) and method_call(x)[1] in getters and method_call(x)[2]:
+                            a_ = s(unparen(method_call(x)[2][0]))
+                            if a_ == "this.refName" or (a_.endswith(".name") and a_ != "this.name"):
+                                consults = True
                 rep.ob(rid, "%s.%s/consults-override" % (cname, mname), consults,
                        "%s.%s stores the definition of the named type `%s` without consulting the schema override for that name, while other paths do: the exported definition then depends on which parser was printed first" % (cname, mname, s(name_e)),
                        mod.loc(call), sample={"site": "%s.%s" % (cname, mname), "name": s(name_e)})
